@@ -40,6 +40,7 @@ class Engine(ExprMixin, CallMixin):
         self.exc_classes = set(exc_classes)
         self.opaque_may_raise = opaque_may_raise
         self.feas_ms = 700
+        self.field_consts = {}
         self.hooks = hooks
         self.assumptions = set()
         self.trusted = set()
@@ -417,11 +418,15 @@ class Engine(ExprMixin, CallMixin):
                     names = self.handler_names(h)
                     if any(exc_isa(val.cls, n) for n in names):
                         s1 = s.copy()
+                        prior = s1.locals.get('$exc')
                         s1.locals['$exc'] = val
                         if h.name:
                             s1.locals[h.name] = val
                         for c2, v2, s2 in self.exec_block(h.body, s1):
-                            s2.locals.pop('$exc', None)
+                            if prior is None:
+                                s2.locals.pop('$exc', None)
+                            else:
+                                s2.locals['$exc'] = prior
                             after.append((c2, v2, s2))
                         handled = True
                         break
